@@ -20,7 +20,7 @@ import ast
 import json
 import time
 
-from checks import e1common, irload, rxload
+from checks import e1common, irload, pool, rxload
 from checks.c09 import SEARCH_PATH_SPEC, decide
 from checks.common import Report, StandIn, json_from, run_py
 from engine import rx
@@ -166,6 +166,14 @@ def standin(rep: Report):
             cases.append({"src": f"{pre}$(ls\n{pad}-l){post}\n", "py": f"{pre}__xonsh__.subproc_captured('ls', '-l'){post}\n", "construct": None})
             cases.append({"src": f"{pre}![echo $H\n{pad}/tmp]{post}\n", "py": f"{pre}__xonsh__.subproc_captured_hiddenobject('echo', __xonsh__.env['H'], '/tmp'){post}\n",
                           "construct": None})
+    # the same (construct, context) pairs under other layouts: the translation is written out in the same layout
+    base = list(cases)
+    for i, c in enumerate(base):
+        if i % (3 if rep.tier == "quick" else 1):
+            continue
+        for vs, vp in list(zip(pool.layouts(c["src"]), pool.layouts(c["py"])))[1:]:
+            if len(pool.layouts(c["src"])) == len(pool.layouts(c["py"])):
+                cases.append({"src": vs, "py": vp, "construct": None, "target": c.get("target")})
     rc, out, err = run_py("harness/desugar.py", [], timeout=1800, stdin=json.dumps({"op": "c05", "cases": cases}))
     si = StandIn("desugar-vs-written-out", f"{len(cases)} programs: {len(CONSTRUCTS)} constructs x {len(CONTEXTS)} expression contexts, nesting depth 2, {len(TARGETS)} binding-target forms; "
                  "tree (positions ignored) == ast.parse of the program with the documented translation written out; construct node spans the construct text")
